@@ -1,6 +1,7 @@
 """Shared machinery of the socket-level checks (C01, C02, C07, C15, C16 and the reception parts of
 C06/C13/C17): run script families on the real socket, judge the observable traces with the Spec
 monitors (oracle), validate every recorded step against the Lean model (driver), shrink failures."""
+import asyncio
 import json
 import logging
 import multiprocessing
@@ -20,7 +21,7 @@ def _run_one(args):
     warnings.simplefilter("ignore")
     try:
         r = sockharness.run_script([tuple(op) for op in script], gen=gen)
-    except Exception as e:  # noqa: BLE001
+    except (Exception, asyncio.CancelledError) as e:  # noqa: BLE001
         return {"error": "%s: %s" % (type(e).__name__, e)}
     bg = [e for st in r["steps"] for e in st["events"] if e[0] in ("bgException",)]
     return {"obs": sockobs.observable(r), "steps": r["steps"], "census": r["census"], "delivered": r.get("delivered", []),
